@@ -52,6 +52,20 @@ NeverCantPayAffordable == \A p \in P : tx[p].res = "cantpay" => Due(tx[p].payer,
 NeverTrimmedOne == \A p \in P : tx[p].res = "ok" => (tx[p].has["A"] /\ tx[p].has["B"])
 
 -----------------------------------------------------------------------------
+\* multi-round RBF histories: either side offers, any fee of a small grid, any of 3 delivery scripts
+CONSTANT RbfDepth
+RbfChans == {MidChan("A", FALSE), MidChan("B", FALSE),
+             MkChan("A", TRUE, FALSE, 200, 1300, 1000 * (Capacity - 6744 - 660 - 1500) , 1000 * 1500, 6744),
+             MkChan("A", FALSE, FALSE, 1300, 200, 1000 * 250, 1000 * (Capacity - 4344 - 250), 4344)}
+RbfFees(c) == {1000, 1700} \cup Around(Sat(ch.view[c].our))
+RbfInit == /\ ch \in RbfChans /\ tx = [p \in P |-> NoTx] /\ NegIdle
+RbfNext == /\ rounds < RbfDepth
+           /\ \E c \in P, k \in 0..2 : \E f \in RbfFees(c) : RbfOffer(f, c, k)
+           /\ rounds' = rounds + 1
+           /\ UNCHANGED <<ideal, maxfee, last, prior, done, msg, turn, err>>
+RbfSpec == RbfInit /\ [][RbfNext]_vars
+
+-----------------------------------------------------------------------------
 Ideals == {x \in Lo..Hi : (x - Lo) % Step = 0}
 
 
